@@ -264,6 +264,29 @@ def check_registry(res):
                 res.violate("c05.registry.decode-string", {"json": sj}, type(st2).__name__)
         except Exception as e:  # noqa: BLE001
             res.violate("c05.registry.decode", {"json": sj}, common.exc_str(e))
+    # ... also in a FRESH interpreter that imported nothing but the public package and has built no step itself
+    # (a process that only receives steps): one subprocess per step type, in isolation from one another
+    import subprocess
+    import sys
+
+    prog = (
+        "import sys, json; sys.path.insert(0, sys.argv[1])\n"
+        "from prosemirror.transform import Step\n"
+        "from prosemirror.schema.basic import schema\n"
+        "st = Step.from_json(schema, json.loads(sys.argv[2]))\n"
+        "print(type(st).__name__, json.dumps(st.to_json(), sort_keys=True))\n"
+    )
+    for sj in samples:
+        sj2 = dict(sj)
+        if sj2["stepType"] == "docAttr":
+            sj2["attr"] = "x"  # the basic schema's doc has no attrs; decoding does not look the name up
+        res.transitions += 1
+        p = subprocess.run([sys.executable, "-c", prog, adapters.REPO, json.dumps(sj2)], capture_output=True, text=True,
+                           timeout=60)
+        want = STEP_IDS[sj["stepType"]]
+        got1 = p.stdout.split(" ")[0] if p.returncode == 0 else (p.stderr.strip().splitlines() or ["?"])[-1][:200]
+        if got1 != want:
+            res.violate("c05.registry.fresh-process-decode", {"json": sj2}, got1, want)
     for bad in ({"stepType": "nosuch"}, {}, {"from": 1}):
         try:
             adapters.Step.from_json(c.schema, bad)
